@@ -356,6 +356,23 @@ def make_hybrid_output(rng, spec: dict) -> None:
     spec["flags"]["hybrid_output"] = True
 
 
+def make_identity_chain(rng, spec: dict) -> None:
+    """Swarm variant: an input term whose membership function is the identity (Function `x`), concluded by a plain
+    weight-less rule `if <input> is <term> then ...` in first position - the configuration in which a value object
+    handed in by the caller can travel unchanged through term, antecedent and rule (aliasing)."""
+    iv = C(rng, spec["inputs"])
+    iv["enabled"] = True
+    name = "idt"
+    iv["terms"] = [t for t in iv["terms"] if t["name"] != name][:3] + [{"cls": "Function", "name": name, "args": {"formula": "x", "variables": {}}}]
+    b = C(rng, spec["blocks"])
+    b["enabled"] = True
+    o = C(rng, spec["outputs"])
+    if o["terms"]:
+        b["rules"].insert(0, {"ant": {"var": iv["name"], "hedges": [], "term": name},
+                              "con": [{"var": o["name"], "hedges": [], "term": C(rng, o["terms"])["name"]}], "weight": None, "enabled": True})
+    spec["flags"]["identity_chain"] = True
+
+
 def fn_reads_output(spec: dict) -> bool:
     outs = {o["name"] for o in spec["outputs"]}
     for v in spec["inputs"] + spec["outputs"]:
